@@ -727,6 +727,18 @@ CorruptDelete(f) ==
                    lastEnacted, tabs, dtabs, flushedCq, applied, durable, mode, rcv, ncrash, lastRec, rdr, cur>>
     /\ Log([a |-> "CorruptDelete", f |-> f])
 
+\* two log files change names (reordered / renamed files): replay goes by the first record id of a file,
+\* not by its name, so nothing else changes
+CorruptSwap(f, g) ==
+    /\ "corrupt" \in Feat /\ mode = "crashed" /\ naux < MaxAux
+    /\ f \in 1..Len(logs) /\ g \in 1..Len(logs) /\ f < g
+    /\ logs' = [logs EXCEPT ![f].id = logs[g].id, ![g].id = logs[f].id]
+    /\ KeepPool
+    /\ naux' = naux + 1
+    /\ UNCHANGED <<hist, logical, calls, queue, nextCid, covl, lw, nextRid, rpos, lovl, cw,
+                   lastEnacted, tabs, dtabs, flushedCq, applied, durable, mode, rcv, ncrash, lastRec, rdr, cur>>
+    /\ Log([a |-> "CorruptSwap", f |-> f, g |-> g])
+
 ----------------------------------------------------------------------------
 (* I/O failure (C16): a pipeline step stops part-way, the handle enters the           *)
 (* background-error state: no further logging/enacting, commits refused, reads work.  *)
@@ -868,6 +880,7 @@ Next ==
     \/ (\E f \in 1..Len(logs), k \in 0..MaxCalls + MaxAux, t \in BOOLEAN : CorruptTruncate(f, k, t))
     \/ (\E f \in 1..Len(logs), r \in 1..MaxCalls + MaxAux : CorruptRecord(f, r))
     \/ (\E f \in 1..Len(logs) : CorruptDelete(f))
+    \/ (\E f, g \in 1..Len(logs) : CorruptSwap(f, g))
     \/ (\E t \in BOOLEAN : IoFailAppend(t))
     \/ (\E d \in SUBSET Loc : IoFailEnact(d))
     \/ IoFailOther \/ DropErr
